@@ -1736,6 +1736,8 @@ func runC13(c *Ctx, r *Report) {
 	c13R3(c, r, "C13.R3")
 	c13R4(c, r, "C13.R4")
 	c13Loop(c, r, "C13.R11")
+	c02Router(c, r, "C13.R12") // a connection no terminal route consumed reaches the hand-off: the routing invariants (progress, fallback exactly once when every remaining route said no)
+	c13PerListener(c, r, "C13.R13")
 	c13R6(c, r, "C13.R6")
 	c13R10(c, r, "C13.R10")
 	c01R2(c, r, "C13.R9")  // what the consumer of the wrapped listener reads starts at the first unconsumed byte: freeze/unfreeze restore exactly the cursor
@@ -2789,5 +2791,54 @@ func c08QuicAddr(c *Ctx, r *Report, rule string) {
 	}
 	if n == 0 {
 		r.bad(rule, fnName, "pipe address", c.pos(fn.Pos()), "undecided: the packet pipe of the QUIC matcher was not found")
+	}
+}
+
+// c13PerListener: one ListenerWrapper instance wraps every listener of its server (one per listen address). The
+// hand-off queue, the done signal and the handler count of a wrapped listener belong to that listener: they are made
+// where the listener object is made, never taken from the wrapper (or a package variable), which all listeners share
+// - a shared queue delivers a connection accepted on one address to the Accept of another, and closing one listener
+// closes the queue under the others.
+func c13PerListener(c *Ctx, r *Report, rule string) {
+	r.rule(rule, "per-listener state: every channel and WaitGroup field of the wrapped-listener object is created in the function that creates the object (make/new there), not loaded from the ListenerWrapper or a package variable", 3)
+	n := 0
+	for _, fn := range c.Funcs {
+		if fn.Pkg == nil || short(fn.Pkg.Pkg.Path()) != "layer4" {
+			continue
+		}
+		for _, b := range fn.Blocks {
+			for _, in := range b.Instrs {
+				st, ok := in.(*ssa.Store)
+				if !ok {
+					continue
+				}
+				fa, ok := st.Addr.(*ssa.FieldAddr)
+				if !ok || namedName(deref(fa.X.Type())) != "layer4.listener" {
+					continue
+				}
+				if al, isAlloc := fa.X.(*ssa.Alloc); !isAlloc || !al.Heap {
+					continue // only the construction of the object
+				}
+				ft := st.Val.Type()
+				_, isChan := ft.Underlying().(*types.Chan)
+				isWG := strings.HasSuffix(typeStr(ft), "sync.WaitGroup")
+				if !isChan && !isWG {
+					continue
+				}
+				n++
+				f := fieldName(deref(fa.X.Type()), fa.Field)
+				var shared []string
+				for _, o := range c.originsIP(fn, st.Val, 0) {
+					switch o.Kind {
+					case "field", "fieldaddr", "global", "param":
+						shared = append(shared, o.Kind+":"+o.Desc)
+					}
+				}
+				r.check(len(shared) == 0, rule, fname(fn), "listener."+f, c.ipos(st), "created with the listener", "the wrapped listener's "+f+" comes from "+strings.Join(dedup(shared), ", ")+", which every listener wrapped by the same wrapper shares: connections accepted on one address are delivered to another listener's Accept, and closing one listener closes the queue of the others")
+			}
+		}
+	}
+	if n == 0 {
+		r.bad(rule, "layer4.listener", "construction", "-", "the construction of the wrapped-listener object was not found")
 	}
 }
